@@ -1,5 +1,6 @@
 import CanVerif.Model.GenSem
 import CanVerif.Model.GenApi
+import CanVerif.Model.Render
 import Driver.OpsCompile
 import Driver.OpsPhys
 import Driver.OpsSocketcan
@@ -145,6 +146,15 @@ def opsGen : List String → Option (String × String)
         match unmarshalFrame m ⟨m.signals.map fun _ => 0⟩ f with
         | none => some ("err", "-")
         | some st => some (hx m.name ++ "|" ++ stateStr m st, "-")
+  | ["gtxt", h, msg, fr] => do
+    match compileHex h with
+    | none => some ("not-in-class", "~")
+    | some db =>
+      let m ← db.messages.find? (fun m => m.name == bstrOf msg)
+      let f ← parseGFrame (fr.splitOn ":")
+      match unmarshalFrame m (newState m) f with
+      | none => some ("err", "-")
+      | some st => some (renderTok m (CanVerif.frameOf m st).data, "-")
   | ["gapi", h] => do
     match compileHex h with
     | none => some ("not-in-class", "~")
